@@ -208,7 +208,43 @@ PROPS["C19"] = {
              "(valid gzip+tar framing, a hazard or rule file present, a string accepted by url/regaddr pre-parsing, JSON that unmarshals); "
              "distinct by case hash."),
     "assumptions": ["documented panics (SourceAddr with an invalid sub-path, Must*, use of a closed builder) are not entry points", "a hang is declared only with a go-slug frame in the goroutine dump; otherwise the run is inconclusive"],
-    "quick": [rapid("tree", "^TestPropTree$", 500, shards=2, timeout=900), rapid("bytes", "^TestPropUnpackBytes$", 2000, shards=2)],
-    "thorough": [rapid("tree", "^TestPropTree$", 8000, shards=6, timeout=7000), rapid("bytes", "^TestPropUnpackBytes$", 40000, shards=6),
-                 fuzz("FuzzUnpackBytes", "120s")],
+    "quick": [rapid("tree", "^TestPropTree$", 500, shards=2, timeout=900), rapid("bytes", "^TestPropUnpackBytes$", 2000, shards=2),
+              rapid("addrs", "^TestPropAddr$", 20000, shards=2)],
+    "thorough": [rapid("tree", "^TestPropTree$", 8000, shards=6, timeout=7000), rapid("bytes", "^TestPropUnpackBytes$", 40000, shards=4),
+                 rapid("addrs", "^TestPropAddr$", 400000, shards=4), fuzz("FuzzUnpackBytes", "120s"), fuzz("FuzzAddr", "120s")],
+}
+
+PROPS["C06"] = {
+    "pkg": "c06",
+    "level": "exploration",
+    "rule": ("(1) strings from a grammar of every accepted kind (local; registry with/without host, port, IDN host; final registry; git with "
+             "https/ssh, ports, IPv6 literals, refs; archives by suffix or archive= argument, http:: type; github/gitlab shorthand), 40% of "
+             "them mutated (case flips, inserted escapes, '//', '?', '#', '@', userinfo, scheme/type swaps, odd segments), through each of the 8 "
+             "public parsers; every accepted value and every value reachable from it (Package, Unversioned) must print to a string that the "
+             "parser of its kind and the general parsers read back as an equal value of the same kind, printing again identically. (2) derived "
+             "values: ResolveRelativeSource/FinalSource with relative paths whose segments need escaping, Versioned, FinalSourceAddr, "
+             "RemotePackage.SourceAddr. (3) pairs of spellings: values equal iff they print the same. Thorough: native fuzzing of all parsers. "
+             "Non-trivial = string with escape, query, sub-path, shorthand, upper case, port or version, or a derived value / two spellings; "
+             "distinct by case hash."),
+    "assumptions": ["strings are valid UTF-8", "the general parsers' documented refusal of surrounding blanks is honoured"],
+    "quick": [rapid("parsed", "^TestPropParsed$", 15000, shards=2), rapid("derived", "^TestPropDerived$", 15000, shards=2), rapid("pairs", "^TestPropPairs$", 10000, shards=1)],
+    "thorough": [rapid("parsed", "^TestPropParsed$", 400000, shards=5), rapid("derived", "^TestPropDerived$", 400000, shards=5), rapid("pairs", "^TestPropPairs$", 300000, shards=3),
+                 fuzz("FuzzSourceRoundTrip", "150s")],
+}
+
+PROPS["C07"] = {
+    "pkg": "c07",
+    "level": "exploration",
+    "rule": ("Three input classes through ParseSource, ParseFinalSource, ParseRemoteSource and ParseRemotePackage: documented-grammar strings "
+             "(must be accepted as remote addresses, also with upper-case type/scheme), single-rule violations from a list of 34 (http, git://, "
+             "file, userinfo forms, second ref, foreign git key, checksum, archive=zip, two archive, no archive suffix, '.', '..', empty "
+             "sub-path segments, unknown/redundant type, no scheme, short shorthand; must be rejected), and mutated strings (if accepted, the "
+             "policy holds). Constructor route: MakeRemoteSource(type, URL, sub-path) from valid parts with zero, one or two fields edited "
+             "(type, User, Scheme, RawQuery incl. ';' pairs, Path, sub-path): unedited must be accepted, accepted ones satisfy the policy and "
+             "parse back, the caller's URL is not modified. Addresses derived by relative resolution keep the policy. Oracle: an independent "
+             "predicate over SourceType/URL/SubPath accessors. Non-trivial = non-canonical spelling, reject-class or mutated input, constructor "
+             "or derived route; distinct by case hash."),
+    "assumptions": ["the must-accept grammar is limited to forms shown in doc comments and the test table", "a four-part gitlab.com address is a registry address (documented precedence)"],
+    "quick": [rapid("strings", "^TestPropStrings$", 15000, shards=2), rapid("make", "^TestPropMake$", 20000, shards=1), rapid("resolved", "^TestPropResolved$", 8000, shards=1)],
+    "thorough": [rapid("strings", "^TestPropStrings$", 400000, shards=6), rapid("make", "^TestPropMake$", 400000, shards=4), rapid("resolved", "^TestPropResolved$", 200000, shards=2)],
 }
